@@ -125,7 +125,15 @@ impl StateMachine<'_> {
                     .output_buffer
                     .push_str(&tabs::expand(&self.raw_line, &self.config.tab_cfg));
                 self.painter.output_buffer.push('\n');
-                State::HunkZero(Unified, None)
+                // Such a line does not change the kind of diff the hunk belongs to.
+                let diff_type = match &self.state {
+                    HunkHeader(diff_type, _, _, _)
+                    | HunkMinus(diff_type, _)
+                    | HunkZero(diff_type, _)
+                    | HunkPlus(diff_type, _) => diff_type.clone(),
+                    _ => Unified,
+                };
+                State::HunkZero(diff_type, None)
             }
         };
         self.painter.emit()?;
